@@ -63,7 +63,7 @@ def run_checks(patch, checks):
     try:
         for c in checks:
             t0 = time.time()
-            r = sh(f"timeout 2400 ./check {c} quick 2>&1 | tail -40", cwd=VERIF)
+            r = sh(f"VERIF_EVIDENCE_DIR={VERIF}/out/evidence-seeded timeout 2400 ./check {c} quick 2>&1 | tail -40", cwd=VERIF)
             lines = r.stdout.splitlines()
             viol = [i for i, l in enumerate(lines) if l.startswith("VIOLATION")]
             res[c] = {
